@@ -676,6 +676,36 @@ theorem string_of_grammar (puny : Str → Str) (o : Opts) (ir : Bool) (g g' : Ur
     normalizeUrlString puny id o ir g'.str = normalizeUrlString puny id o ir g.str :=
   string_of_grammar_rel puny o ir g g' _ _ hg.of hg'.of hport h
 
+/-- **`normalize_url(…, unsplit=False)` on a string of the class**, from the pieces -/
+theorem normalizeUrlSplit_grammar (puny : Str → Str) (o : Opts) (ir : Bool) (g : UrlG) (x : Str)
+    (hg : InClassOf ir g x) :
+    normalizeUrlSplit puny parseUrl id o ir x =
+      match g.parsed with
+      | none => .inl x
+      | some p => .inr (normParts puny o g.proto.hasProto p) := by
+  obtain ⟨e1, e2⟩ := parse_str g hg.wf hg.noUnsafe
+  have hr := hg.reaches
+  unfold resolvedClean at hr
+  unfold normalizeUrlSplit prepared
+  simp only [id, hr, e1, e2]
+  cases g.parsed <;> rfl
+
+theorem portVal_ok {port : Option Str} {po : Option Nat} (h : portVal port = some po) :
+    ∀ n, po = some n → n ≤ 65535 := by
+  intro n hn
+  subst hn
+  cases port with
+  | none => simp [portVal] at h
+  | some p =>
+    simp only [portVal] at h
+    split at h
+    · cases h
+    · split at h
+      · split at h
+        · injection h with h; injection h with h; subst h; assumption
+        · cases h
+      · cases h
+
 /-- a transformation that keeps prefix and port value: it is enough to compare the results on
 the two `Parsed` records -/
 theorem normG_congr (puny : Str → Str) (o : Opts) (g g' : UrlG) (hproto : g'.proto = g.proto)
